@@ -199,9 +199,9 @@ def cell_job(cell):
         # args order: swapping the two arguments must change the result (i.e. they are bound by position, not both to one name)
         out["argsBoundInOrder"] = True
         if args is not None:
-            res2 = de.solve_ivp(f, span, y0, method=method, t_eval=cell["t_eval"], args=(args[1], args[0]), **opts)
+            res2 = de.solve_ivp(f, span, y0, method=method, t_eval=cell["t_eval"], args=(args[1], args[0]), events=evs, **opts)
             sg_ = -1.0 if cell.get("backward") else 1.0
-            ref = de.solve_ivp(lambda t_, y_: sg_ * (-args[0] * y_ * y_ + args[1] * np.cos(t_)), span, y0, method=method, t_eval=cell["t_eval"], **opts)
+            ref = de.solve_ivp(lambda t_, y_: sg_ * (-args[0] * y_ * y_ + args[1] * np.cos(t_)), span, y0, method=method, t_eval=cell["t_eval"], events=evs, **opts)
             out["argsBoundInOrder"] = bool(np.array_equal(np.asarray(ref.y), y) and not np.array_equal(np.asarray(res2.y), y))
         # scipy (exploration): end state at tight tolerance
         out["scipyTolUnits"] = -1
